@@ -319,6 +319,13 @@ const KINDS: &[(&str, usize)] = &[
     ("int-location-not-flat", 1),
     ("entry-arg-unbound", 1),
     ("workgroup-var-in-fragment", 1),
+    // rejected only by the validator's pass over constants / overrides (the one place override declarations are checked)
+    ("override-duplicate-id", 1),
+    ("override-vector-type", 1),
+    // diagnostics that render a very long line with multi-byte characters (whatever is done to the rendered text afterwards
+    // - cutting, wrapping, colouring - must not panic and must not change it)
+    ("long-line-parse-error", 2),
+    ("long-line-validation-error", 2),
     // accepted by naga (output may change; validation must not matter)
     ("insert-comment", 2),
     ("insert-whitespace", 1),
@@ -575,6 +582,23 @@ fn corrupt(kind: &str, src: &str, r: &mut Rng, tag: &str) -> Option<String> {
         "workgroup-var-in-fragment" => append(format!(
             "var<workgroup> {z}_w: array<f32, 4>;\n@fragment\nfn {z}_fs() -> @location(0) vec4<f32> {{\n    return vec4<f32>({z}_w[0]);\n}}"
         )),
+        "override-duplicate-id" => append(format!(
+            "@id(4091) override {z}_a: f32 = 1.0;\n@id(4091) override {z}_b: f32 = 2.0;\nfn {z}_use() -> f32 {{\n    return {z}_a + {z}_b;\n}}"
+        )),
+        "override-vector-type" => append(format!("override {z}_v: vec2<f32>;")),
+        "long-line-parse-error" | "long-line-validation-error" => {
+            // one line of 9-14 KiB: ASCII padding 0..3, then a block comment of 2-, 3- or 4-byte characters, then the defect
+            let ch = *r.pick(&["\u{e9}", "\u{20ac}", "\u{1F600}", "\u{3a9}", "\u{4e2d}"]);
+            let pad = "x".repeat(r.below(4));
+            let n = 3000 + r.below(1200);
+            let filler: String = std::iter::repeat(ch).take(n).collect();
+            let defect = if kind == "long-line-parse-error" {
+                format!("fn {z}_bad( {{")
+            } else {
+                format!("fn {z}_ret(a: u32) -> f32 {{ return a; }}")
+            };
+            append(format!("/*{pad}{filler}*/ {defect} /*{filler}*/"))
+        }
         "insert-comment" => {
             if sol.is_empty() {
                 return None;
